@@ -54,6 +54,7 @@ extern ssize_t mpt_slice_write(MPT_STRUCT(slice) *sl, size_t nblk, const void *f
 	MPT_STRUCT(buffer) *buf, *next;
 	uint8_t *ptr;
 	size_t used, avail, pos;
+	int flags;
 	
 	pos = sl->_off + sl->_len;
 	used = 0;
@@ -119,8 +120,10 @@ extern ssize_t mpt_slice_write(MPT_STRUCT(slice) *sl, size_t nblk, const void *f
 			return _fast_append(sl, nblk, from, size);
 		}
 	}
+	/* new instance keeps the user flags, apart from immutability */
+	flags = buf ? (buf->_vptr->get_flags(buf) & MPT_ENUM(BufferFlagsUser) & ~MPT_ENUM(BufferImmutable)) : 0;
 	/* get space for needed data size */
-	while (!(next = _mpt_buffer_alloc(sl->_len + nblk * size, 0))) {
+	while (!(next = _mpt_buffer_alloc(sl->_len + nblk * size, flags))) {
 		if (!(nblk /= 2)) {
 			return MPT_ERROR(BadOperation);
 		}
